@@ -50,6 +50,8 @@ __all__ = [
 import logging
 import datetime
 import http.cookiejar
+import os
+import tempfile
 import uuid
 import xml.etree.ElementTree as ET
 import urllib.request as urllib_request
@@ -488,19 +490,9 @@ class OFXClient:
         persistdir = config.DATADIR / "fiprofiles"
         persistpath = persistdir / filename
 
-        if persistpath.exists():
-            with open(persistpath, "rb") as f:
-                profrs: Optional[BytesIO] = BytesIO(f.read())
-
-            parser = OFXTree()
-            parser.parse(profrs)
-            ofx = parser.convert()
-            proftrnrs = ofx.profmsgsrsv1[0]
-            dtprofup = proftrnrs.profrs.dtprofup
-        else:
+        profrs, dtprofup = self._read_cached_profile(persistpath)
+        if profrs is None:
             persistdir.mkdir(parents=True, exist_ok=True)
-            profrs = None
-            dtprofup = None
 
         response = self._request_profile(
             dtprofup=dtprofup,
@@ -538,13 +530,62 @@ class OFXClient:
 
             # Cache the updated PROFRS sent by the server
             response.seek(0)
-            with open(persistpath, "wb") as f:
-                f.write(response.read())
+            self._write_cached_profile(persistpath, response.read())
 
         # Rewind PROFRS so it can be returned cleanly after having been parsed.
         response.seek(0)
 
         return response
+
+    @staticmethod
+    def _read_cached_profile(
+        path,
+    ) -> Tuple[Optional[BytesIO], Optional[datetime.datetime]]:
+        """
+        Return cached PROFRS and its DTPROFUP, or (None, None) if there isn't one.
+
+        A cache file that can't be read back as a profile (e.g. left behind by an
+        interrupted write) is treated the same as no cache at all, so that it
+        gets replaced by the next profile the server sends.
+        """
+        try:
+            with open(path, "rb") as f:
+                data = f.read()
+        except FileNotFoundError:
+            return None, None
+
+        try:
+            parser = OFXTree()
+            parser.parse(BytesIO(data))
+            ofx = parser.convert()
+            dtprofup = ofx.profmsgsrsv1[0].profrs.dtprofup  # type: ignore
+            assert isinstance(dtprofup, datetime.datetime)
+        except Exception as exc:
+            logger.warning(f"Ignoring unreadable cached profile {path}: {exc}")
+            return None, None
+
+        return BytesIO(data), dtprofup
+
+    @staticmethod
+    def _write_cached_profile(path, data: bytes) -> None:
+        """
+        Replace cached PROFRS atomically: write a temporary file in the same
+        directory then rename it into place, so the cache never holds a partial
+        or interleaved write.
+        """
+        fd, tmppath = tempfile.mkstemp(
+            dir=str(path.parent), prefix=path.name + ".", suffix=".tmp"
+        )
+        try:
+            with os.fdopen(fd, "wb") as f:
+                f.write(data)
+            os.replace(tmppath, path)
+        except BaseException:
+            try:
+                os.unlink(tmppath)
+            except OSError:
+                pass
+            raise
 
     def _request_profile(
         self,
